@@ -97,8 +97,32 @@ func recursion(limit, variant int) []c01.N {
 			return c01.Call(c01.Dot(c01.Obj("m", id("rec")), "m"), num(d))
 		}
 	}
-	out := []c01.N{c01.FDecl("rec", []string{"d"}, c01.Expr(c01.Call(id("H"), id("d"))),
-		c01.If(c01.Bin(">", id("d"), num(0)), c01.Return(c01.Bin("+", num(1), c01.Call(id("rec"), c01.Bin("-", id("d"), num(1))))), nil), c01.Return(num(0)))}
+	// the recursive step itself also takes every call form: each re-entry (eval code entering the
+	// global context again, a built-in calling back, an accessor) must count towards the limit
+	dm1 := c01.Bin("-", id("d"), num(1))
+	var pre []c01.N
+	var step c01.N
+	switch (variant / 4) % 7 {
+	case 0:
+		step = c01.Call(id("rec"), dm1)
+	case 1:
+		step = c01.Call(c01.Dot(id("rec"), "call"), c01.Null(), dm1)
+	case 2:
+		step = c01.Call(c01.Dot(id("rec"), "apply"), c01.Null(), c01.Arr(dm1))
+	case 3:
+		step = c01.Call(c01.Call(c01.Dot(id("rec"), "bind"), c01.Null(), dm1))
+	case 4: // direct eval: runs in the calling context
+		step = c01.EvalCall(true, c01.Expr(c01.Call(id("rec"), dm1)))
+	case 5: // indirect eval: enters the global context again
+		pre = []c01.N{c01.Expr(c01.Asg("=", id("gd"), dm1))}
+		step = c01.EvalCall(false, c01.Expr(c01.Call(id("rec"), id("gd"))))
+	default: // through a getter
+		pre = []c01.N{c01.Expr(c01.Asg("=", id("gd"), dm1))}
+		step = c01.Dot(c01.WithAccessor(c01.Obj(), "get", "next", c01.Fn("", nil, c01.Return(c01.Call(id("rec"), id("gd"))))), "next")
+	}
+	body := []c01.N{c01.Expr(c01.Call(id("H"), id("d")))}
+	body = append(body, c01.If(c01.Bin(">", id("d"), num(0)), c01.Block(append(pre, c01.Return(c01.Bin("+", num(1), step)))...), nil), c01.Return(num(0)))
+	out := []c01.N{c01.Var("gd", num(0)), c01.FDecl("rec", []string{"d"}, body...)}
 	for _, d := range []int{limit - 3, limit - 2, limit - 1, limit, limit + 2} {
 		if d < 0 {
 			continue
